@@ -178,6 +178,28 @@ def replay_contract(prog, rng, rec_kinds=('ndarray', 'utpm'), replays=None):
                 fails.append({'what': 'replay raises %s but direct evaluation succeeds' % type(e).__name__, 'record_kind': rk, 'replay_kind': uk, 'DP': dp, 'u': _ser(u)}); continue
             n += 1
             if not same(got, want): fails.append({'what': 'replay differs from direct evaluation', 'record_kind': rk, 'replay_kind': uk, 'DP': dp, 'u': _ser(u), 'got': _ser(got), 'want': _ser(want)})
+    # a second, already closed graph is re-evaluated (on plain values) in the middle of this recording: the recording must go on in
+    # ITS graph, the helper graph must not grow, and replays must still equal direct evaluation
+    try:
+        helper = progs.Program(N, [(1, 'sin', (0,), {}), (2, 'mul', (1, 0), {})], 'helper')
+        cgA, _, _ = record(helper, numpy.array([native.rnd(rng, 0.25, 1.0) for _ in range(N)])); nA = len(cgA.functionList)
+        xr = numpy.array([native.rnd(rng, 0.25, 1.0) for _ in range(N)])
+        cg0, _, _ = record(prog, xr); n_plain = len(cg0.functionList)
+        cgB = a.CGraph(); fxB = a.Function(xr)
+        cgA.function([numpy.array([native.rnd(rng, 0.25, 1.0) for _ in range(N)])])
+        fyB = prog.run(ns, fxB); cgB.trace_off(); cgB.independentFunctionList = [fxB]; cgB.dependentFunctionList = [fyB]
+        n += 1
+        if len(cgA.functionList) != nA: fails.append({'what': 'a closed graph grew from %d to %d nodes when it was re-evaluated during another recording' % (nA, len(cgA.functionList)), 'record_kind': 'nested'})
+        elif len(cgB.functionList) != n_plain: fails.append({'what': 'recording interrupted by the re-evaluation of another graph has %d nodes, uninterrupted %d' % (len(cgB.functionList), n_plain), 'record_kind': 'nested'})
+        else:
+            for (uk, dp) in (('ndarray', None), ('utpm', (2, 2))):
+                u = numpy.array([native.rnd(rng, 0.25, 1.0) for _ in range(N)]) if uk == 'ndarray' else make_utpm(N, dp[0], dp[1], rng)
+                try: want = prog.run(ns, u)
+                except Exception: continue
+                got = cgB.function([u])[0]; n += 1
+                if not same(got, want): fails.append({'what': 'replay of a recording that was interrupted by the re-evaluation of another graph differs from direct evaluation', 'record_kind': 'nested', 'replay_kind': uk, 'u': _ser(u), 'got': _ser(got), 'want': _ser(want)}); break
+    except Exception as e:
+        fails.append({'what': 'nested-graph scenario raises %s: %s' % (type(e).__name__, str(e)[:100]), 'record_kind': 'nested'})
     return fails, n, None
 
 
